@@ -158,3 +158,23 @@ var NotIface int = 5
 
 // PlainVar is a plain variable.
 var PlainVar int = 6
+
+// Q is a method no history ever mocks (used by the C13 mistake catalogue).
+//
+//go:noinline
+func (s *S) Q(a int) int {
+	if a > 1<<40 {
+		return a*31 - s.K
+	}
+	return a + 1100
+}
+
+// F3p has parameters of three different sizes.
+//
+//go:noinline
+func F3p(a int32, b int64, c int8) int {
+	if b > 1<<40 {
+		return int(a) - int(c)
+	}
+	return int(a) + int(b) + int(c) + 1200
+}
